@@ -12,10 +12,12 @@ import MenelausVerif.Driver.NNSP
 import MenelausVerif.Driver.MD3
 import MenelausVerif.Driver.Inject
 import MenelausVerif.Driver.LFR
+import MenelausVerif.Driver.ErrDetectors
+import MenelausVerif.Driver.PCACD
 open MV.Driver
 
 def registry : List (List String → Option Machine) :=
-  [mkElection, mkLifecycle, mkSequential, mkEnsemble, mkNNSP, mkMD3, mkInject, mkLFR]
+  [mkElection, mkLifecycle, mkSequential, mkEnsemble, mkNNSP, mkMD3, mkInject, mkLFR, mkErrDetectors, mkPCACD]
 
 def mkMachine (ts : List String) : Option Machine :=
   registry.findSome? (fun f => f ts)
